@@ -105,6 +105,15 @@ func (x *Exec) builtin(i *ssa.Call, b *ssa.Builtin) Val {
 		}
 	case "append":
 		return x.appendOp(i)
+	case "SliceData":
+		// unsafe.SliceData(s): the pointer keeps the slice it came from
+		return x.get(args[0])
+	case "String":
+		// unsafe.String(unsafe.SliceData(s), n): a string over the current contents of s
+		if v, ok := x.get(args[0]).(*SliceV); ok && x.th.Mode() == "int" {
+			n := x.ev.specOf(x.leafOf(args[1]))
+			return &SliceV{Arr: x.sliceArr(v), Off: v.Off, Len: n, Cap: n, Elem: MT{8, false}, IsString: true}
+		}
 	case "copy":
 		return x.copyOp(i)
 	case "min", "max":
@@ -195,6 +204,7 @@ func (x *Exec) contractCall(i *ssa.Call, callee *ssa.Function, cc *Contract, val
 	for k, p := range callee.Params {
 		env.vars[p.Name()] = vals[k]
 	}
+	env.lookupType = paramTypes(callee)
 	// logical variables of the callee
 	for _, lv := range cc.Logical {
 		var bound Val
@@ -538,6 +548,32 @@ func (x *Exec) sliceOp(i *ssa.Slice) Val {
 			break
 		}
 		mt, ok := machineType(arrT.Elem())
+		if !ok && len(b.Path) == 0 {
+			// array of non-scalar elements (the argument list of a variadic call): contents are not modelled
+			return Opaque{Desc: "slice of " + arrT.String()}
+		}
+		if ok && len(b.Path) != 0 {
+			// an array field inside a larger variable: a read-only snapshot of its current elements
+			// (enough for append/copy sources; a write through such a slice is not supported)
+			ag, isAgg := x.ev.deref(b, false).(Agg)
+			if !isAgg || int64(len(ag.Elems)) != arrT.Len() {
+				break
+			}
+			arr := T{S: "emptyArr", Sort: sortArr}
+			for k, e := range ag.Elems {
+				l, isLeaf := e.(Leaf)
+				if !isLeaf {
+					panic(unsupported("slice of a non-scalar array field"))
+				}
+				arr = T{S: fmt.Sprintf("(store %s %d %s)", arr.S, k, x.ev.specOf(l).S), Sort: sortArr}
+			}
+			snap := x.vc.define("snap", arr)
+			n := arrT.Len()
+			lo = one(i.Low, intT64(0))
+			hi = one(i.High, intT64(n))
+			x.sideOblige("slicebounds", mkAnd(mkCmp("<=", intT64(0), lo), mkCmp("<=", lo, hi), mkCmp("<=", hi, intT64(n))))
+			return &SliceV{Arr: snap, Off: x.vc.define("soff", lo), Len: x.vc.define("slen", mkSub(hi, lo)), Cap: x.vc.define("scap", mkSub(intT64(n), lo)), Elem: mt, IsString: true}
+		}
 		if !ok || len(b.Path) != 0 {
 			break
 		}
@@ -643,10 +679,24 @@ func (x *Exec) appendOp(i *ssa.Call) Val {
 	res := x.vc.fresh("apparr", sortArr)
 	darr := x.sliceArr(dst)
 	sarr := x.sliceArr(src)
-	// quantified description of contents (both cases): res[off+k] for k<len(dst) = dst[k]; k>=len(dst) -> src
-	kq := "k!app"
-	x.vc.emit(fmt.Sprintf("(assert (forall ((%s Int)) (! (=> (and (<= 0 %s) (< %s %s)) (= (select %s (+ %s %s)) (ite (< %s %s) (select %s (+ %s %s)) (select %s (+ %s (- %s %s)))))) :pattern ((select %s (+ %s %s))))))",
-		kq, kq, kq, newLen.S, res.S, dst.Off.S, kq, kq, dst.Len.S, darr.S, dst.Off.S, kq, sarr.S, src.Off.S, kq, dst.Len.S, res.S, dst.Off.S, kq))
+	if src.Len.C != nil && src.Len.C.IsInt64() && src.Len.C.Int64() <= 8 {
+		// a small constant number of appended elements (variadic append of a few bytes): the result is
+		// a store chain over a base array that agrees with dst on dst's elements (it is dst's array
+		// itself when the capacity suffices) - no quantifier is needed to read the new elements
+		// res agrees with dst on dst's elements (quantified, one instantiation per read of an old
+		// element) and carries the new elements at ground indices
+		kq := "k!app"
+		x.vc.emit(fmt.Sprintf("(assert (forall ((%s Int)) (! (=> (and (<= 0 %s) (< %s %s)) (= (select %s (+ %s %s)) (select %s (+ %s %s)))) :pattern ((select %s (+ %s %s))))))",
+			kq, kq, kq, dst.Len.S, res.S, dst.Off.S, kq, darr.S, dst.Off.S, kq, res.S, dst.Off.S, kq))
+		for j := int64(0); j < src.Len.C.Int64(); j++ {
+			x.vc.emit(fmt.Sprintf("(assert (= (select %s (+ %s %s %d)) (select %s (+ %s %d))))", res.S, dst.Off.S, dst.Len.S, j, sarr.S, src.Off.S, j))
+		}
+	} else {
+		// quantified description of contents (both cases): res[off+k] for k<len(dst) = dst[k]; k>=len(dst) -> src
+		kq := "k!app"
+		x.vc.emit(fmt.Sprintf("(assert (forall ((%s Int)) (! (=> (and (<= 0 %s) (< %s %s)) (= (select %s (+ %s %s)) (ite (< %s %s) (select %s (+ %s %s)) (select %s (+ %s (- %s %s)))))) :pattern ((select %s (+ %s %s))))))",
+			kq, kq, kq, newLen.S, res.S, dst.Off.S, kq, kq, dst.Len.S, darr.S, dst.Off.S, kq, sarr.S, src.Off.S, kq, dst.Len.S, res.S, dst.Off.S, kq))
+	}
 	x.cur.mem[nc] = Leaf{T: res}
 	if dst.Back != nil {
 		// in-place case also updates dst's backing store
